@@ -322,43 +322,42 @@ func (p *iptParser) option(t string) error {
 			return err
 		}
 		neg := p.takeNeg()
+		// xt_set / ip_set_test(): a match that supplies FEWER dimensions than the set type
+		// needs never matches (opt->dim < set->type->dimension => 0, then the inversion flag is
+		// applied); extra dimensions are ignored by the set type (hash:net only reads the first).
+		var dims int
+		var src bool
 		switch flags {
 		case "src", "dst":
-			src := flags == "src"
-			p.cond(func(st *state) (bool, error) {
-				s, err := st.setLookup(name)
-				if err != nil {
-					return false, err
-				}
-				if s.IPPortType {
-					return false, gapf("one-dimensional match on ip,port set %q", name)
-				}
-				a := st.pkt.Dst
-				if src {
-					a = st.pkt.Src
-				}
-				return s.hasAddr(a) != neg, nil
-			})
+			dims, src = 1, flags == "src"
 		case "src,src", "dst,dst":
-			src := flags == "src,src"
+			dims, src = 2, flags == "src,src"
+		}
+		if dims != 0 {
+			p.r.setRefs = append(p.r.setRefs, setRef{name, dims})
 			p.cond(func(st *state) (bool, error) {
 				s, err := st.setLookup(name)
 				if err != nil {
 					return false, err
 				}
-				if !s.IPPortType {
-					return false, gapf("two-dimensional match on net set %q", name)
-				}
 				a := st.pkt.Dst
 				if src {
 					a = st.pkt.Src
 				}
-				return s.hasIPPort(a, st.pkt.Proto, st.pkt.l4(src)) != neg, nil
+				var hit bool
+				switch {
+				case s.IPPortType && dims < 2:
+					hit = false
+				case s.IPPortType:
+					hit = s.hasIPPort(a, st.pkt.Proto, st.pkt.l4(src))
+				default:
+					hit = s.hasAddr(a)
+				}
+				return hit != neg, nil
 			})
-		default:
-			return gapf("unsupported --match-set flags %q", flags)
+			return nil
 		}
-		return nil
+		return gapf("unsupported --match-set flags %q", flags)
 
 	case "--source-ports", "--sports", "--destination-ports", "--dports":
 		if err := p.need("multiport", t); err != nil {
